@@ -3,21 +3,23 @@ package main
 import (
 	"fmt"
 	"os"
+	"sort"
 )
 
+// commands are registered by the init() function of each driver file (c01.go, ...).
 var commands = map[string]func([]string){}
 
+func register(name string, f func([]string)) { commands[name] = f }
+
 func main() {
-	commands["c01"] = runC01
-	commands["params"] = runParams
-	if len(os.Args) < 2 {
-		fmt.Fprintln(os.Stderr, "usage: harness <command> [flags]")
+	if len(os.Args) < 2 || commands[os.Args[1]] == nil {
+		var n []string
+		for k := range commands {
+			n = append(n, k)
+		}
+		sort.Strings(n)
+		fmt.Fprintln(os.Stderr, "usage: harness <command> [flags]; commands:", n)
 		os.Exit(2)
 	}
-	c, ok := commands[os.Args[1]]
-	if !ok {
-		fmt.Fprintf(os.Stderr, "unknown command %s\n", os.Args[1])
-		os.Exit(2)
-	}
-	c(os.Args[2:])
+	commands[os.Args[1]](os.Args[2:])
 }
